@@ -3705,6 +3705,10 @@ class CacheDataset(Dataset):
             item = self.keys().index(item)
 
         if isinstance(item, numbers.Integral):
+            # Use a python int as key for the cache: The diskcache distinguishes
+            # between a python int and a numpy int (e.g. from a slice), i.e.
+            # they would not share one cache entry.
+            item = int(item)
             if item < 0:
                 # Normalize the index, so that e.g. ds[-1] and ds[len(ds) - 1]
                 # share one cache entry.
